@@ -68,7 +68,7 @@ def extension(magic, data: bytes) -> bytes:
 def build(states, slots, cluster_bits=16, version=3, size=None, window_at=0, total_clusters=None, layer=1,
           layout="l1_first", table_base=None, data_base=None, backing_name=None, backing_format=None, header_length=112,
           v2_tail="l1", data_file=False, ext=None, comp=None, nslots=None, extensions=None, snapshots=None, l1_extra=0,
-          label="qcow2", name=None, copied="parity", with_end_ext=True):
+          label="qcow2", name=None, copied="parity", with_end_ext=True, comp_pack=False):
     """states: tokens per cluster of the window (standard L2) or, with ext != None, per cluster a dict
          {"kind": "N"|"U"|"C", "sub": [32 x 'u'|'a'|'z']}.
     comp:  per compressed cluster options {index in window: (in_sector_offset, extra_sectors, high)}.
@@ -191,12 +191,20 @@ def build(states, slots, cluster_bits=16, version=3, size=None, window_at=0, tot
                 body = pattern.span((pattern.COMPRESSIBLE | lay) if tok == C else lay, g * cs, cs)
                 z = raw_deflate(body, 6 if tok == C else 0)
                 x = 62 - (cluster_bits - 8)
-                if high:
+                if comp_pack:
+                    # byte-packed back to back, as qemu-img convert -c writes them: several clusters share a host sector
+                    if len(comp_area) == 1:
+                        comp_area.append((comp_area[0] << cluster_bits) + 1)
+                    base, insec = comp_area[1], 0
+                    comp_area[1] = base + len(z)
+                    comp_area[0] = (comp_area[1] >> cluster_bits) + 2
+                elif high:
                     base = (1 << x) - 2 * cs - 4 * 512 - (comp_area[0] - comp_base) * 4 * cs
                     base &= ~511
+                    comp_area[0] += 3
                 else:
                     base = comp_area[0] << cluster_bits
-                comp_area[0] += 3
+                    comp_area[0] += 3
                 host = base + insec
                 first_sector = host >> 9
                 last_sector = (host + len(z) - 1) >> 9
@@ -206,7 +214,7 @@ def build(states, slots, cluster_bits=16, version=3, size=None, window_at=0, tot
                 e = COMPRESSED | (nb << x) | host
                 img.put(host, z, meta=False)
                 tail = ((first_sector + nb + 1) << 9) - (host + len(z))
-                if tail > 0:
+                if tail > 0 and not comp_pack:
                     img.put_pattern(host + len(z), tail, pattern.SLACK, host + len(z))
             else:
                 raise ValueError(tok)
